@@ -53,8 +53,8 @@ def run_item(item):
         if kind == "contract":
             from pyvc.verify import verify_contract
             c = find_contract(item["spec"])
-            r = verify_contract(c, timeout_ms=item.get("timeout_ms", 10000), max_paths=item.get("max_paths", 600),
-                                only=item.get("only"))
+            r = verify_contract(c, timeout_ms=item.get("timeout_ms", 10000),
+                                max_paths=item.get("max_paths", getattr(c, "max_paths", 600)), only=item.get("only"))
             obls = r["obligations"]
             for o in obls:
                 o["kind"] = "vc"
